@@ -126,6 +126,24 @@ pub struct Seen<'a> {
     pub syn_ack: Option<&'a TcpObservation>,
     pub mtu: Option<(u16, Option<String>)>,
     pub src: Option<(std::net::IpAddr, u16, std::net::IpAddr, u16)>,
+    /// `Display` rendering of the reported observable (the wrapper type the analyzer hands out), for syn / syn_ack
+    pub text: Option<String>,
+}
+
+/// the p0f text `ver:ittl:olen:mss:wsize,scale:olayout:quirks:pclass` of an observation, composed from its fields
+pub fn compose_text(o: &TcpObservation) -> String {
+    format!(
+        "{}:{}:{}:{}:{},{}:{}:{}:{}",
+        o.version,
+        o.ittl,
+        o.olen,
+        o.mss.map(|m| m.to_string()).unwrap_or_else(|| "*".into()),
+        o.wsize,
+        o.wscale.map(|m| m.to_string()).unwrap_or_else(|| "*".into()),
+        o.olayout.iter().map(|x| format!("{x}")).collect::<Vec<_>>().join(","),
+        o.quirks.iter().map(|x| format!("{x}")).collect::<Vec<_>>().join(","),
+        o.pclass
+    )
 }
 
 /// Compare what an analyzer reported for `case` with the reference. `errored`: the analyzer returned an error / nothing.
@@ -193,6 +211,16 @@ pub fn judge(ctx: &Ctx, case: &TcpCase, seen: Option<Seen>, st: &mut Stats, who:
         let fixed = fixed_field_diffs(o, case);
         if let Some(f) = fixed.into_iter().next() {
             return Err(Fail::new(format!("{who}:{}", f.what), f.detail));
+        }
+        // the observable as text: exactly the p0f rendering of the fields judged here, for the observation and for the wrapper the analyzer reports
+        let composed = compose_text(o);
+        if format!("{o}") != composed {
+            return Err(fail!(format!("{who}:rendered-text"), "fields render as {composed}, the observation prints {o}"));
+        }
+        if let Some(t) = &seen.text {
+            if *t != composed {
+                return Err(fail!(format!("{who}:rendered-text"), "fields render as {composed}, the reported observable prints {t}"));
+            }
         }
         if case.malformed() {
             // only the option-independent part is defined; plus `bad`
@@ -337,6 +365,7 @@ pub fn check_case(ctx: &Ctx, case: &TcpCase, st: &mut Stats, unified: bool) -> R
                     syn_ack: r.syn_ack.as_ref().map(|s| &s.sig.matching),
                     mtu: r.mtu.as_ref().map(|m| (m.mtu, m.link.link.clone())),
                     src,
+                    text: r.syn.as_ref().map(|s| format!("{}", s.sig)).or(r.syn_ack.as_ref().map(|s| format!("{}", s.sig))),
                 }),
                 st,
                 "tcp",
@@ -362,6 +391,7 @@ pub fn check_case(ctx: &Ctx, case: &TcpCase, st: &mut Stats, unified: bool) -> R
                 syn_ack: r.tcp_syn_ack.as_ref().map(|s| &s.sig.matching),
                 mtu: r.tcp_mtu.as_ref().map(|m| (m.mtu, m.link.link.clone())),
                 src,
+                text: r.tcp_syn.as_ref().map(|s| format!("{}", s.sig)).or(r.tcp_syn_ack.as_ref().map(|s| format!("{}", s.sig))),
             })
         };
         judge(ctx, case, seen, st, "unified")?;
@@ -726,6 +756,7 @@ fn case_quick(ctx: &Ctx, c: &TcpCase, st: &mut Stats) -> Result<(), Fail> {
                     syn_ack: r.syn_ack.as_ref().map(|s| &s.sig.matching),
                     mtu: r.mtu.as_ref().map(|m| (m.mtu, lookup(m.mtu))),
                     src: None,
+                    text: r.syn.as_ref().map(|s| format!("{}", s.sig)).or(r.syn_ack.as_ref().map(|s| format!("{}", s.sig))),
                 }),
                 st,
                 "tcp",
